@@ -590,13 +590,18 @@ Proof.
   intros Hwf Hroot Hfm H. unfold run_request in H.
   assert (Hret : forall r0, ret (r0, fm) = ((r, fm'), log) -> contained c log = true /\ fm_ok c fm').
   { intros r0 E. unfold ret in E. injection E as <- <- <-. split; [reflexivity|assumption]. }
-  destruct (c_mount c) as [|[m|m|]].
+  (* goals that remain after the default mounting (request.subpath given) is solved: 0, 5, 4, 2, 1 *)
+  destruct (c_mount c) as [|[[q|[q|q|]|]|[q|[q|q|]|]|]]; try (eapply serve_contained_fs; eassumption).
   - destruct (decode (unquote (r_raw rq))) as [p0|]; [|eapply Hret; eassumption].
     destruct (route_match _ _) as [rest|]; [|eapply Hret; eassumption].
     destruct static_use_subpath; [eapply serve_contained_fs|eapply serve_path_info_contained_fs]; eassumption.
-  - destruct m; try (eapply serve_contained_fs; eassumption).
-  - destruct m; try (eapply serve_contained_fs; eassumption).
-    eapply serve_path_info_contained_fs; eassumption.
+  - cbv iota in H. destruct (decode (unquote (r_raw rq))) as [p0|]; [|eapply Hret; eassumption].
+    destruct (split_path_info_f _) as [|seg rest]; [eapply Hret; eassumption|].
+    destruct (text_eqb _ _); [eapply serve_contained_fs; eassumption|eapply Hret; eassumption].
+  - cbv iota in H. destruct (decode (unquote (r_raw rq))) as [p0|]; [|eapply Hret; eassumption].
+    destruct (route_match_ph _ _) as [rest|]; [|eapply Hret; eassumption].
+    destruct (traverser_tuple rest) as [r0|t]; [eapply Hret; eassumption|eapply serve_contained_fs; eassumption].
+  - eapply serve_path_info_contained_fs; eassumption.
   - destruct (decode (unquote (r_raw rq))) as [p0|]; [|eapply Hret; eassumption].
     destruct (route_match _ _) as [rest|]; [|eapply Hret; eassumption].
     eapply serve_contained_fs; eassumption.
@@ -754,6 +759,9 @@ Qed.
 Lemma facts_ok :
   view_decodes_again = false /\ route_remainder_dotall = true /\ route_anchor_abs = true /\ static_use_subpath = true /\ static_route_star = traverser_subpath_key.
 Proof. repeat split; reflexivity. Qed.
+
+Lemma facts_ok3 : traverser_str_decodes_again = false /\ traverser_view_selector = [at_sign; at_sign].
+Proof. split; reflexivity. Qed.
 
 Lemma spi_f_is_spi p : split_path_info_f p = split_path_info p.
 Proof. reflexivity. Qed.
